@@ -369,6 +369,7 @@ type runner struct {
 	wdog    time.Duration
 	udp     bool
 	extra   []*bmc.V2SessionlessTransport
+	kept    map[string]ipmi.Command // command values reused across calls of one script (step option "keep")
 }
 
 func (r *runner) target(s M) bmc.Connection {
@@ -438,6 +439,17 @@ func (r *runner) invoke(ctx context.Context, s M, ret M) {
 			panic("harness: unknown command " + s["cmd"].(string))
 		}
 		cmd := ctor()
+		if s["keep"] == true {
+			// the caller holds on to one command value and sends it again (as the library's own loops do)
+			if r.kept == nil {
+				r.kept = map[string]ipmi.Command{}
+			}
+			if old, ok := r.kept[s["cmd"].(string)]; ok {
+				cmd = old
+			} else {
+				r.kept[s["cmd"].(string)] = cmd
+			}
+		}
 		if args != nil {
 			if e := populate(reflect.ValueOf(cmd).Elem(), args); e != nil {
 				panic("harness: " + e.Error())
